@@ -257,3 +257,94 @@ _reg(DecodeProp(
     _c13,
     "all base vectors of both versions with every optional metric Not Defined (omitted and explicit), TD:N with every CDP, and "
     "temporal <= base on the base x temporal products"))
+
+
+class TablesProp:
+    """C20: exhaustive dump of every metric's Get / String / Value / validity"""
+    prop = "C20"
+    lean_modules = ["CvssVerif.Props.C20"]
+    theorems = ["CvssVerif.Props.C20.get_other", "CvssVerif.Props.C20.str_other", "CvssVerif.Props.C20.v3_tables_ok",
+                "CvssVerif.Props.C20.v3_codes_are_spec", "CvssVerif.Props.C20.v3_validity", "CvssVerif.Props.C20.v3_weights",
+                "CvssVerif.Props.C20.v3_modified_weights", "CvssVerif.Props.C20.version_labels", "CvssVerif.Props.C20.v2_tables_ok",
+                "CvssVerif.Props.C20.v2_codes_are_spec", "CvssVerif.Props.C20.v2_unknown_prints_empty",
+                "CvssVerif.Props.C20.v2_weights", "CvssVerif.Props.C20.literals_are_decimals"]
+    assumptions = ["integers outside -3..10 and strings outside the generated set: covered on the model by get_other / str_other "
+                   "(all strings, all integers) and on the code by the shape of a Go map lookup"]
+    trusted_base = TB_COMMON
+
+    def run(self, tier, rng, seed):
+        from . import judge_tables, vec
+        out = Outcome()
+        out.rule = ("every exported Get/String/Value/validity of the 22 v3 and 14 v2 metric types and the two version types: integers "
+                    "-3..10, every code and name occurring anywhere in the library with case/padding variants, random short strings; "
+                    "distinct by op line")
+        ops = S.table_ops(rng, 300 if tier == "quick" else 20000)
+        go, mo = core.run_both(ops)
+        out.evaluations = len(ops)
+        out.distinct = len(set(ops))
+        out.exhaustive = True
+        mism = [(o, a, b) for o, a, b in zip(ops, go, mo) if a != b]
+        out.mismatches = len(mism)
+        out.mismatch_examples = [{"stream": "tables", "op": m[0], "impl": m[1], "model": m[2]} for m in mism[:10]]
+        out.stream_info.append({"stream": "tables", "ops": len(ops), "exhaustive": True, "mismatches": len(mism)})
+        # judge against the specification tables
+        get = {}
+        val = {}
+        for op, line in zip(ops, go):
+            f = op.split(" ")
+            d = core.parse_kv(line)
+            if f[0] in ("T3", "T2") and len(f) == 4:
+                key = (f[0], f[1])
+                if f[2] == "get" and "get" in d:
+                    s = core.unhx(f[3]).decode("latin-1")
+                    get.setdefault(key, {})[s] = int(d["get"])
+                elif f[2] == "val" and "str" in d:
+                    val.setdefault(key, {})[int(f[3])] = (core.unhx(d["str"]).decode("latin-1"), d.get("valid"), d.get("val", "").split(","))
+            if line.startswith(("PANIC", "CRASH", "TIMEOUT", "bad-op")):
+                out.violations.append((op, "table operation did not return normally: " + line[:80], line, ""))
+        for fam, ms, sop in (("T3", vec.V3, "SPECT3"), ("T2", vec.V2, "SPECT2")):
+            names = [m[0] for m in ms]
+            sp = core.run_sharded(core.MODEL, ["%s %s" % (sop, n) for n in names], shards=1)
+            aux = {}
+            order = names
+            if fam == "T3":
+                order = ["S", "MS", "PR"] + [n for n in names if n not in ("S", "MS", "PR", "MPR")] + ["MPR"]
+            spmap = dict(zip(names, sp))
+            for n in order:
+                msgs = []
+                judge_tables.judge(fam, n, judge_tables.parse_spect(spmap[n]), get.get((fam, n), {}), val.get((fam, n), {}), msgs, aux)
+                for m in msgs:
+                    out.violations.append(("%s %s" % (fam, n), m, "", spmap[n]))
+        # version tables
+        for op, line in zip(ops, go):
+            f = op.split(" ")
+            if f[0] != "TV":
+                continue
+            d = core.parse_kv(line)
+            if f[1] == "get":
+                s = core.unhx(f[2]).decode("latin-1")
+                want_gv = {"CVSS:3.0": "1|-", "CVSS:3.1": "2|-"}.get(s)
+                parts = s.split(":")
+                if want_gv is None:
+                    want_gv = "0|-" if (len(parts) == 2 and parts[0] == "CVSS") else "0|InvalidVector"
+                if d.get("gv") != want_gv:
+                    out.violations.append((op, "GetVersion(%r) = %s, expected %s" % (s, d.get("gv"), want_gv), line, ""))
+                want_num = {"3.0": "1", "3.1": "2"}.get(s, "0")
+                if d.get("num") != want_num:
+                    out.violations.append((op, "version.Get(%r) = %s, expected %s" % (s, d.get("num"), want_num), line, ""))
+            elif f[1] == "str":
+                v = int(f[2])
+                want = {1: "3.0", 2: "3.1"}.get(v, "unknown")
+                for k in ("vstr", "nstr"):
+                    got = core.unhx(d.get(k, "-")).decode("latin-1")
+                    if got != want:
+                        out.violations.append((op, "%s(%d) = %r, expected %r" % (k, v, got, want), line, ""))
+        out.samples = [{"op": runner._readable(o), "impl": g[:200]} for o, g in list(zip(ops, go))[:: max(1, len(ops) // 6)]][:6]
+        out.hist = {"ops": len(ops)}
+        return out
+
+    def replay(self, rp):
+        return self.run("quick", core.Rng(1), 1)
+
+
+_reg(TablesProp())
